@@ -284,7 +284,8 @@ def c17_4(ctx, ss):
     (ctx.holds if okr else ctx.violation)("C17.4", ckey(ff, None, "result"), where(ff, ff.node), "the amplitude is built from the whole matched dictionary" if okr else "from_matched_line does not return cls(**mat)")
     # amp assembled from the two numeric columns in the transformer
     tf, tflow = fn(ss, ATRANS, "AmpGenTransformer.cplx_decay_line")
-    st = [x for x in pf.iter_stmts(tf.node.body) if isinstance(x, ast.Assign) and txt(x.targets[0]) in ('decay["amp"]', "decay['amp']")]
+    st = [x for x in pf.iter_stmts(tf.node.body) if isinstance(x, ast.Assign) and isinstance(x.targets[0], ast.Subscript)
+          and isinstance(x.targets[0].slice, ast.Constant) and x.targets[0].slice.value == "amp"]
     oka = len(st) == 1 and tflow.text(st[0].value) == "complex(float(lines[1].children[1]), float(lines[2].children[1]))"
     (ctx.holds if oka else ctx.violation)("C17.4", ckey(tf, None, "columns"), where(tf, tf.node),
                                           "amp = complex(value of the first triple, value of the second triple)" if oka
